@@ -258,6 +258,21 @@ type recReplayer struct {
 	replays int
 }
 
+var errPanicValue = errors.New("harness: injected replayer panic (an error value)")
+
+// doPanic panics the way replayers really do: with a string, with an error value, or with a
+// genuine runtime error (which also implements error).
+func (r *recReplayer) doPanic(where string) {
+	switch r.sc.PanicKind {
+	case "error":
+		panic(fmt.Errorf("in %s: %w", where, errPanicValue))
+	case "runtime":
+		var m map[string]int
+		m[where] = 1 // assignment to entry in nil map
+	}
+	panic("harness: injected replayer panic in " + where)
+}
+
 func (r *recReplayer) Put(m *sse.Message, topics []string) (*sse.Message, error) {
 	r.w.park("loop@put")
 	k := r.puts
@@ -266,7 +281,7 @@ func (r *recReplayer) Put(m *sse.Message, topics []string) (*sse.Message, error)
 	r.w.add(Rec{K: "put", Ser: ser})
 	if k == r.sc.PutPanicAt {
 		r.w.add(Rec{K: "putret", Ser: ser, Panic: true})
-		panic("harness: injected replayer panic in Put")
+		r.doPanic("Put")
 	}
 	if k == r.sc.PutErrAt {
 		r.w.add(Rec{K: "putret", Ser: ser, Err: errPut})
@@ -293,7 +308,7 @@ func (r *recReplayer) Replay(sub sse.Subscription) error {
 	r.w.add(Rec{K: "replaybegin", Sub: wr.idx, ID: sub.LastEventID.String(), IDSet: sub.LastEventID.IsSet()})
 	if k == r.sc.ReplayPanicAt {
 		r.w.add(Rec{K: "replayend", Sub: wr.idx, Panic: true})
-		panic("harness: injected replayer panic in Replay")
+		r.doPanic("Replay")
 	}
 	if wr.spec.ReplayErr {
 		r.w.add(Rec{K: "replayend", Sub: wr.idx, Err: errReplay})
